@@ -507,77 +507,110 @@ fn check(m: &PropMeta, tier_s: &str) -> i32 {
     }
 }
 
-/// Runs `cargo +nightly fuzz run <target>` on a fresh corpus directory seeded with encodings
-/// of nothing (libFuzzer starts from the empty input; -len_control=0 lets it use the full
-/// length at once). A crash artifact is decoded back into a case and re-checked in-process:
-/// only a case that fails the property's own check becomes a violation.
+/// Builds the libFuzzer target with `cargo +nightly fuzz build` (against /repo's working tree)
+/// and runs 8 independent instances of it (different seeds, fresh corpus directories;
+/// -len_control=0 lets libFuzzer use the full length at once). A crash artifact is decoded back
+/// into a case and re-checked in-process: only a case that fails the property's own check
+/// becomes a violation.
 fn fuzz_stage(m: &PropMeta, target: &str, runs: u64, seed: u64, work: &Path) -> (serde_json::Value, Vec<Violation>, Vec<String>) {
     let fuzz_dir = verif_root().join("harness");
-    let corpus = work.join(format!("corpus-{target}"));
-    let artifacts = work.join(format!("artifacts-{target}"));
-    let _ = std::fs::create_dir_all(&corpus);
-    let _ = std::fs::create_dir_all(&artifacts);
-    let jobs = 8u64;
+    let mut viol = vec![];
+    let mut inc = vec![];
     let t0 = Instant::now();
-    let out = Command::new("cargo")
+    let build = Command::new("cargo")
         .current_dir(&fuzz_dir)
         .env("CARGO_NET_OFFLINE", "true")
         .env_remove("CARGO_TARGET_DIR")
-        .args(["+nightly", "fuzz", "run", target])
-        .arg(&corpus)
-        .arg("--")
-        .arg(format!("-runs={}", runs / jobs))
-        .arg(format!("-seed={}", (seed % 0xffff_fff0) + 1))
-        .arg("-len_control=0")
-        .arg("-max_len=128")
-        .arg("-print_final_stats=1")
-        .arg(format!("-artifact_prefix={}/", artifacts.display()))
-        .arg(format!("-fork={jobs}"))
-        .arg("-ignore_crashes=0")
+        .args(["+nightly", "fuzz", "build", target])
         .output();
-    let mut viol = vec![];
-    let mut inc = vec![];
-    let Ok(out) = out else {
-        inc.push("cargo fuzz could not be started".to_string());
-        return (serde_json::Value::Null, viol, inc);
-    };
-    let text = format!("{}{}", String::from_utf8_lossy(&out.stdout), String::from_utf8_lossy(&out.stderr));
+    match build {
+        Ok(o) if o.status.success() => {}
+        Ok(o) => {
+            let tail: String = String::from_utf8_lossy(&o.stderr).lines().rev().take(8).collect::<Vec<_>>().join(" | ");
+            inc.push(format!("fuzz target {target} does not build: {tail}"));
+            return (serde_json::Value::Null, viol, inc);
+        }
+        Err(e) => {
+            inc.push(format!("cargo fuzz could not be started: {e}"));
+            return (serde_json::Value::Null, viol, inc);
+        }
+    }
+    let bin = fuzz_dir.join("fuzz/target/x86_64-unknown-linux-gnu/release").join(target);
+    let jobs = 8u64;
+    let mut procs = vec![];
+    for j in 0..jobs {
+        let corpus = work.join(format!("corpus-{target}-{j}"));
+        let artifacts = work.join(format!("artifacts-{target}-{j}"));
+        let _ = std::fs::create_dir_all(&corpus);
+        let _ = std::fs::create_dir_all(&artifacts);
+        let child = Command::new(&bin)
+            .arg(&corpus)
+            .arg(format!("-runs={}", runs / jobs))
+            .arg(format!("-seed={}", ((seed.wrapping_mul(31).wrapping_add(j)) % 0xffff_fff0) + 1))
+            .arg("-len_control=0")
+            .arg("-max_len=128")
+            .arg("-print_final_stats=1")
+            .arg(format!("-artifact_prefix={}/", artifacts.display()))
+            .env("TUV_WORK", work.join(format!("fz{j}")))
+            .stdin(Stdio::null())
+            .stdout(Stdio::null())
+            .stderr(Stdio::piped())
+            .spawn();
+        match child {
+            Ok(c) => procs.push((j, c, corpus, artifacts)),
+            Err(e) => inc.push(format!("fuzz binary could not be started: {e}")),
+        }
+    }
     let mut execs = 0u64;
-    for l in text.lines() {
-        if let Some(r) = l.strip_prefix("stat::number_of_executed_units:") {
-            execs += r.trim().parse::<u64>().unwrap_or(0);
-        }
-        // fork mode prints "#123: cov: .. exec/s .." lines
-        if l.starts_with('#') && l.contains("cov:") {
-            if let Some(n) = l[1..].split(':').next().and_then(|x| x.trim().parse::<u64>().ok()) {
-                execs = execs.max(n);
-            }
-        }
-    }
-    let corpus_size = std::fs::read_dir(&corpus).map(|d| d.count()).unwrap_or(0);
+    let mut corpus_size = 0usize;
     let mut crashes = 0;
-    if let Ok(rd) = std::fs::read_dir(&artifacts) {
-        for e in rd.flatten() {
-            let name = e.file_name().to_string_lossy().to_string();
-            if !(name.starts_with("crash-") || name.starts_with("timeout-") || name.starts_with("oom-")) {
-                continue;
+    let mut cov = 0u64;
+    for (_j, c, corpus, artifacts) in procs {
+        let Ok(out) = c.wait_with_output() else { continue };
+        let text = String::from_utf8_lossy(&out.stderr).to_string();
+        let mut this = 0u64;
+        for l in text.lines() {
+            if let Some(r) = l.strip_prefix("stat::number_of_executed_units:") {
+                this = r.trim().parse::<u64>().unwrap_or(0);
             }
-            crashes += 1;
-            let bytes = std::fs::read(e.path()).unwrap_or_default();
-            match (m.fuzz_decode)(&bytes) {
-                Some(case) => match (m.check_json)(&case) {
-                    Ok(Some(msg)) => viol.push(Violation { case, message: format!("found by libFuzzer target {target}: {msg}"), original_case: None, stage: "fuzz".into(), seed, shard: 0 }),
-                    Ok(None) => inc.push(format!("fuzz target {target} produced {name} but the decoded case passes the check when re-run (kept at {})", e.path().display())),
-                    Err(e2) => inc.push(format!("artifact {name} does not decode: {e2}")),
-                },
-                None => inc.push(format!("artifact {name} does not decode into a case")),
+            if let Some(p) = l.find(" cov: ") {
+                if let Some(n) = l[p + 6..].split_whitespace().next().and_then(|x| x.parse::<u64>().ok()) {
+                    cov = cov.max(n);
+                }
+            }
+        }
+        execs += this;
+        corpus_size += std::fs::read_dir(&corpus).map(|d| d.count()).unwrap_or(0);
+        if let Ok(rd) = std::fs::read_dir(&artifacts) {
+            for e in rd.flatten() {
+                let name = e.file_name().to_string_lossy().to_string();
+                if !(name.starts_with("crash-") || name.starts_with("timeout-") || name.starts_with("oom-")) {
+                    continue;
+                }
+                crashes += 1;
+                let bytes = std::fs::read(e.path()).unwrap_or_default();
+                match (m.fuzz_decode)(&bytes) {
+                    Some(case) => match (m.check_json)(&case) {
+                        Ok(Some(msg)) => viol.push(Violation { case, message: format!("found by libFuzzer target {target}: {msg}"), original_case: None, stage: "fuzz".into(), seed, shard: 0 }),
+                        Ok(None) => {
+                            let keep = verif_root().join("replays/found").join(format!("{}-fuzz-artifact-{name}", m.id));
+                            let _ = std::fs::create_dir_all(keep.parent().unwrap());
+                            let _ = std::fs::copy(e.path(), &keep);
+                            inc.push(format!("fuzz target {target} produced {name} but the decoded case passes the check when re-run (artifact kept at {})", keep.display()));
+                        }
+                        Err(e2) => inc.push(format!("artifact {name} does not decode: {e2}")),
+                    },
+                    None => inc.push(format!("artifact {name} does not decode into a case")),
+                }
+            }
+        }
+        if !out.status.success() && this == 0 && !text.contains("Done ") {
+            let tail: String = text.lines().rev().take(4).collect::<Vec<_>>().join(" | ");
+            if crashes == 0 {
+                inc.push(format!("fuzz instance of {target} failed to run: {tail}"));
             }
         }
     }
-    if !out.status.success() && crashes == 0 && !text.contains("Done ") && execs == 0 {
-        let tail: String = text.lines().rev().take(6).collect::<Vec<_>>().join(" | ");
-        inc.push(format!("fuzz stage {target} failed to run: {tail}"));
-    }
-    let info = json!({"target": target, "executions": execs, "corpus_files": corpus_size, "crash_artifacts": crashes, "wall_s": t0.elapsed().as_secs_f64(), "engine": "libFuzzer via cargo-fuzz, -fork=8, -len_control=0, max_len 128"});
+    let info = json!({"target": target, "executions": execs, "corpus_files": corpus_size, "edge_coverage": cov, "crash_artifacts": crashes, "wall_s": t0.elapsed().as_secs_f64(), "engine": "libFuzzer (cargo-fuzz build, ASan), 8 independent instances, -len_control=0, max_len 128"});
     (info, viol, inc)
 }
